@@ -127,7 +127,7 @@ var buildClasses = []struct {
 	class string
 }{
 	{regexp.MustCompile(`duplicate case`), "D5-duplicate-case"},
-	{regexp.MustCompile(`refers to unexported field|unexported field or method|\.age undefined`), "D6-unexported-source-field"},
+	{regexp.MustCompile(`refers? to unexported field|unexported field or method|\.age undefined`), "D6-unexported-source-field"},
 	{regexp.MustCompile(`cannot compare|struct containing .* cannot be compared|invalid operation: .* != .*\(struct`), "D7-uncomparable-zero-guard"},
 	{regexp.MustCompile(`redeclared in this block`), "D4-redeclared"},
 	{regexp.MustCompile(`undefined: p\.lvDebugHidden`), "D24-unexported-enum-member"},
